@@ -304,6 +304,8 @@ void h_HP_getSize(void)
  * h_HP_compute:  H(0,0)=1 -> H(0,0)=0                                      FAIL compute.postcondition.3 (1x1: eigenvector = 1)
  *                H.rows()==1 -> H.rows()==2                                FAIL compute.postcondition.2/.3/.4/.5
  *                `if (Status >= Computed) return;` removed                 FAIL RealVector_assign.assigns.*, RealMatrix_assign.assigns.* (frame of the no-op path)
+ *                `Status >= Computed` -> `Status > Computed` (compute() twice diagonalises the eigenvector matrix again)
+ *                                                                          FAIL HamiltonianPart_compute.assigns.1, RealVector_resize/_assign.assigns.*, RealMatrix_assign.assigns.* (same frame)
  *                Eigenvalues = -Solver.eigenvalues()                       UNDECIDED (extraction break: unary minus on a vector has no model)
  * h_HP_getEigenValue:       Eigenvalues(state) -> Eigenvalues(0)           FAIL getEigenValue.postcondition.2
  * h_HP_getMinimumEigenvalue: Status<Computed -> Status<Prepared            FAIL getMinimumEigenvalue.postcondition.1/.2
